@@ -1,6 +1,13 @@
 """Single table of claimed checks; bin/mkmanifest renders MANIFEST.json from it."""
 
 CHECKS = {
+    "C08": dict(
+        level="exploration",
+        technique="TLA+ generator GenObj (state = history of constructions, method calls, field accesses and aliasings; BFS pairs + -simulate long histories, two-phase); TLA+ object model in MSLang (identity + field cells, bound methods, Self) evaluated by TLC; replay on the real binary; TLC judge CheckLang",
+        text="Exploration of operation histories with every object observed through every alias (fields, list-typed field, `is` between all pairs, a Pair's class-typed/optional fields, a list of objects) after every operation, compared with the specification.",
+        note="Trusts MSLang's object semantics; two classes (Counter, Pair) with a fixed member set; object printing is never used (addresses).",
+        design="5/C08",
+    ),
     "C11": dict(
         level="model_checking",
         technique="TLA+ generator GenMod (all import DAGs x import form x path spelling x import placement); TLA+ reference semantics MSLang!RunProject (first executed import runs the module body to completion, one shared export map per module); TLA+ loader machine MSModules (cache hit/miss, pending, running stack) with invariants InitAtMostOnce / OneInstance / InitBeforeImporterContinues; TraceMod validates the hook-H3 event trace of every real execution (run in memory and compile+execute from files) against MSModules; CheckLang judges outputs",
